@@ -1,1 +1,63 @@
-From AUC Require Import C16.Proofs.
+(* C16 — The case-insensitive header map behaves as a map.  Property theorems only. *)
+From Coq Require Import List Bool NArith.
+From AUC Require Import Prelude.PyDict Prelude.PyStr C16.Model C16.Spec C16.Sim C16.Proofs
+  C16.Indep C16.Equivb.
+Import ListNotations.
+
+(* For every key type with decidable equality, every case-folding function, every value type and
+   every operation sequence whose constructor arguments are dicts (and whose combine_lower_dict
+   arguments are pre-lowered, the documented premise): every observation of the two-dict
+   implementation model equals (iteration orders: is a permutation of) the observation of a
+   finite map keyed by the folded name in which the latest write wins and keeps its spelling. *)
+Theorem C16_refines :
+  forall (K : Type) (keqb : K -> K -> bool) (keqb_spec : forall a b, reflect (a = b) (keqb a b))
+         (lower : K -> K) (V : Type) (veqb : V -> V -> bool)
+         (veqb_spec : forall a b, reflect (a = b) (veqb a b)) (ops : list (op K V)),
+    in_domain keqb lower ops = true ->
+    Forall2 (@obs_equiv K V)
+            (run (body_iface keqb lower veqb) ops) (run (spec_iface keqb lower veqb) ops).
+Proof. exact refines. Qed.
+Print Assumptions C16_refines.
+
+(* The same statement through the boolean comparison the correspondence check evaluates. *)
+Theorem C16_refines_bool :
+  forall (K : Type) (keqb : K -> K -> bool) (keqb_spec : forall a b, reflect (a = b) (keqb a b))
+         (lower : K -> K) (V : Type) (veqb : V -> V -> bool)
+         (veqb_spec : forall a b, reflect (a = b) (veqb a b)) (ops : list (op K V)),
+    in_domain keqb lower ops = true ->
+    all_equivb keqb veqb (run (body_iface keqb lower veqb) ops)
+                         (run (spec_iface keqb lower veqb) ops) = true.
+Proof.
+  intros. apply all_equivb_complete; [assumption | assumption |]. now apply refines.
+Qed.
+Print Assumptions C16_refines_bool.
+
+(* Copies and combinations are independent of their sources: in-place mutation through one
+   variable never changes what a non-aliased variable holds (any body implementation) ... *)
+Theorem C16_independent :
+  forall (K V B : Type) (I : iface K V B) (s : store B) (v w i j : nat) (muts : list (op K V)),
+    lookup_var (env s) v = Some j -> lookup_var (env s) w = Some i -> i <> j ->
+    forallb (mutates v) muts = true ->
+    body_of (exec I s muts) w = body_of s w.
+Proof. exact independent. Qed.
+Print Assumptions C16_independent.
+
+(* ... and construction, copy(), combine(), combine_lower_dict() and replace(plain mapping) bind
+   their target to a body no other variable refers to. *)
+Theorem C16_fresh :
+  forall (K V B : Type) (I : iface K V B) (s : store B) (o : op K V) (v : nat),
+    wf s -> allocates o = Some v -> snd (step I s o) = ObDone ->
+    lookup_var (env (fst (step I s o))) v = Some (length (bodies s)) /\
+    forall w i, w <> v -> lookup_var (env (fst (step I s o))) w = Some i -> i < length (bodies s).
+Proof. exact fresh. Qed.
+Print Assumptions C16_fresh.
+
+(* Non-vacuity: a concrete sequence inside the domain with case-colliding keys. *)
+Example C16_domain_inhabited :
+  let lower := lower_with (fun c => c) in
+  let ops := [ONew 0 [([75; 101; 121], 1); ([75; 69; 89], 2)]%N;   (* {'Key':1,'KEY':2} *)
+              OLen 0; OGet 0 [107; 101; 121]%N; OIter 0] in
+  in_domain str_eqb lower ops = true /\
+  run (body_iface str_eqb lower N.eqb) ops =
+    [ObDone; ObNat 1; ObVal 2%N; ObKeys [[75; 69; 89]%N]].
+Proof. vm_compute. split; reflexivity. Qed.
